@@ -12,7 +12,8 @@ LEVEL_TEXT = ("Exploration with a model-checked oracle. MemHier.tla states what 
               "the expected bytes of a pending read cannot change under the no-overlap precondition; two control models show that the "
               "precondition is needed and that every per-response rule can fail). The caches' internals are NOT transcribed: a seeded "
               "generator composes stacks (any chain of write-around / write-evict / write-through / write-back caches and ROBs over "
-              "idealmemcontroller, simplebankedmemory or a DRAM preset, single or interleaved lower modules, small geometries) and a "
+              "idealmemcontroller, simplebankedmemory or a DRAM preset, single or interleaved lower modules, small geometries; plus a family of "
+              "tiny write-back caches over a slow or back-pressured lower level where victims' write-backs queue up) and a "
               "requester issues reads, full-line, partial and masked writes at concurrency 1..16 with no two in-flight requests on a "
               "common byte; every recorded trace is validated by TLC (MemTrace.tla); failing cases are minimised (stack and request "
               "stream) and re-validated.")
@@ -79,7 +80,11 @@ def run(ck):
         stacks, requests, shards = 150, 2000, 15
     # every component's State is projected after every N-th handled engine event (CacheInternals.tla, see below)
     extra = dict(leaves=leaves(ck, stacks), no_mask_every=2, zero_latency_every=11 if ck.tier == "quick" else 19,
-                 internals_every=499 if ck.tier == "quick" else 4999)
+                 internals_every=499 if ck.tier == "quick" else 4999,
+                 # every k-th stack is of the family "slow lower level" (tiny write-back caches, 1-2 evictions in flight, a lower
+                 # level answering after 100-400 cycles, full-line write misses at high concurrency): write-backs queue up
+                 # while transaction slots are recycled
+                 slow_every=4 if ck.tier == "quick" else 8)
     summary, results = memcheck.campaign(ck, "C16", flush=False, stacks=stacks, requests=requests, shards=shards,
                                    module="MemTrace", cfg="MemTrace.cfg", relevant=lambda c: c in memcheck.C16_CLASSES, extra=extra)
     if side:
